@@ -272,7 +272,7 @@ class UnrollExec(SymExec):
             txt, neg = self.cond_text(test, st)
             known = st.cond(txt)
             if known is None and self.test_hook:
-                known = self.test_hook(txt, test, st)
+                known = self.test_hook(txt, self.canon_test(test)[0], st)
             if known is not None:
                 t = known != neg
         if t is True:
